@@ -589,7 +589,9 @@ func (co *c05Coord) waitQuiescent() {
 	timer := time.AfterFunc(c05Deadline, func() { co.mu.Lock(); co.cond.Broadcast(); co.mu.Unlock() })
 	defer timer.Stop()
 	for !co.quiescentLocked() {
-		if time.Now().After(deadline) {
+		// more servers than permits, or more batches than announced: no point in waiting
+		broken := co.alive > co.maxSrv || co.acquired-co.stopped > co.maxSrv || (co.total >= 0 && co.acquired > co.total)
+		if broken || time.Now().After(deadline) {
 			co.stuck = true
 			co.goAutoLocked()
 			return
@@ -769,6 +771,18 @@ func verifC05Run(args []vsx) vsx {
 		if d.l[3].i <= 0 || d.l[3].i > 65535 {
 			// an all-default ServerCompatResponse is an empty message: reading it is C09/C11's business
 			return vL(vS("bad-case"))
+		}
+	}
+	for _, su := range args[7].l {
+		// enum values outside the defined range make ill-formed suites (the shrinker produces them)
+		if len(su.l) != 9 || su.l[2].i < 1 || su.l[2].i > 3 || su.l[3].i < 1 || su.l[3].i > 3 ||
+			su.l[4].i < 1 || su.l[4].i > 2 || su.l[5].i < 1 || su.l[5].i > 6 || su.l[1].i < 0 || su.l[1].i > 2 {
+			return vL(vS("bad-case"))
+		}
+		for _, t := range su.l[8].l {
+			if len(t.l) != 6 || len(t.l[0].b) == 0 {
+				return vL(vS("bad-case"))
+			}
 		}
 	}
 	for _, mv := range args[9].l {
